@@ -26,7 +26,8 @@ PairStr(a, b) == ListOpen \o a \o ListSep \o b \o ListClose
 LastN(seq, k) == SubSeq(seq, Len(seq) - k + 1, Len(seq))
 
 (* a value >= 100 stands for a two-item list (156 is <<5, 6>>): an argument that is itself a list *)
-ValStr(v) == IF v >= 100 THEN PairStr(IntStr((v - 100) \div 10), IntStr(v % 10)) ELSE IntStr(v)
+ValStr(v) == IF v >= 100 THEN PairStr(IntStr((v - 100) \div 10), IntStr(v % 10))
+             ELSE IF v = 99 THEN ListOpen \o ListClose ELSE IntStr(v)         \* 99 stands for the empty list
 
 (* what the program prints for one history item, given the state after it *)
 Printed(h, s2) ==
@@ -44,7 +45,14 @@ Init2 == Init /\ text = <<>>
 Step ==
     /\ l <= Len(T.hist)
     /\ LET h == T.hist[l]
-           s2 == IF h.a = "X" /\ kinds[Len(kinds)] = "L" THEN DoLeave(DoImplicit(s)) ELSE Apply(s, h)
+           \* a call whose last `miss` arguments were not pushed takes them by implicit reads in the CALLER's
+           \* scope; they arrive below the pushed ones, so the new scope is <<d_miss .. d_1>> \o pushed
+           miss == IF h.a \in {"L", "F"} /\ "miss" \in DOMAIN h THEN h.miss ELSE 0
+           s1 == Times(DoImplicit, miss, s)
+           got == [i \in 1..miss |-> s1.delivered[Len(s1.delivered) - i + 1].v]
+           s2 == IF h.a = "X" /\ kinds[Len(kinds)] = "L" THEN DoLeave(DoImplicit(s))
+                 ELSE IF miss > 0 THEN DoEnter(s1, got \o h.args)
+                 ELSE Apply(s, h)
        IN /\ s' = s2
           /\ text' = text \o Printed(h, s2)
           /\ kinds' = IF h.a \in {"L", "F"} THEN Append(kinds, h.a)
